@@ -1,4 +1,5 @@
 """Role-based anchors and small structural queries shared by the property rule tables."""
+import re
 from .ir import walk, children, strip, local_id, PAT_KINDS
 from .norm import Norm, show, cshort, pat_variants, pat_repr, subterms, as_for_loop
 from . import templates as T
@@ -454,6 +455,7 @@ def canon_expected(s):
     """string-level counterpart of the normaliser's Option / Result forms, so that expectations may be written either way:
     X.unwrap() / X.expect(..) is the payload `X@v1::Some.0`; X.is_some() is `let v1::Some($)=X`; X.is_none() its negation;
     `if(Not(c)){a}else{b}` is `if(c){b}else{a}`"""
+    s = re.sub(r"let ([A-Za-z_][\w:]*)\(_\)=", r"let \1($)=", s)       # bound or ignored payload: the same test
     changed = True
     while changed:
         changed = False
